@@ -3,12 +3,21 @@
 package tbtc
 
 import (
+	"context"
+	"crypto/ecdsa"
+	"math/big"
+
 	"github.com/keep-network/keep-core/pkg/chain"
+	"github.com/keep-network/keep-core/pkg/generator"
+	"github.com/keep-network/keep-core/pkg/net"
+	"github.com/keep-network/keep-core/pkg/protocol/announcer"
 	"github.com/keep-network/keep-core/pkg/protocol/group"
+	"github.com/keep-network/keep-core/pkg/tecdsa"
+	"github.com/keep-network/keep-core/pkg/tecdsa/signing"
 )
 
 // Verification hook (build tag verif) for property C08: re-exports
-// finalSigningGroup only.
+// finalSigningGroup and the wallet signing executor.
 
 func VerifC08FinalSigningGroup(
 	selectedOperators []chain.Address,
@@ -20,4 +29,53 @@ func VerifC08FinalSigningGroup(
 		operatingMembersIndexes,
 		groupParameters,
 	)
+}
+
+// VerifC08Sign builds the signers of one wallet with newSigner (one per final
+// signing group member, all controlled by this node, as in the package's own
+// signing executor test), the signing executor with newSigningExecutor, and
+// runs signingExecutor.sign for the message.
+func VerifC08Sign(
+	ctx context.Context,
+	walletPublicKey *ecdsa.PublicKey,
+	finalOperators []chain.Address,
+	shares []*tecdsa.PrivateKeyShare, // shares[i] belongs to final member index i+1
+	broadcastChannel net.BroadcastChannel,
+	membershipValidator *group.MembershipValidator,
+	groupParameters *GroupParameters,
+	getCurrentBlock func() (uint64, error),
+	waitForBlock func(context.Context, uint64) error,
+	signingAttemptsLimit uint,
+	message *big.Int,
+	startBlock uint64,
+) (*tecdsa.Signature, error) {
+	signing.RegisterUnmarshallers(broadcastChannel)
+	announcer.RegisterUnmarshaller(broadcastChannel)
+	broadcastChannel.SetUnmarshaler(func() net.TaggedUnmarshaler {
+		return &signingDoneMessage{}
+	})
+
+	signers := make([]*signer, len(shares))
+	for i, share := range shares {
+		signers[i] = newSigner(
+			walletPublicKey,
+			finalOperators,
+			group.MemberIndex(i+1),
+			share,
+		)
+	}
+
+	executor := newSigningExecutor(
+		signers,
+		broadcastChannel,
+		membershipValidator,
+		groupParameters,
+		generator.NewProtocolLatch(),
+		getCurrentBlock,
+		waitForBlock,
+		signingAttemptsLimit,
+	)
+
+	signature, _, _, err := executor.sign(ctx, message, startBlock)
+	return signature, err
 }
